@@ -153,6 +153,21 @@ Definition cached_call (d : dag) (file : option cache_db) (st : store) (lk : loc
   | Some db => Some (update_status db st lk)
   end.
 
+(* Which store a cached call reads.  Create mode loads the jugfile (jug.init), so it reads the store the
+   tasks use: the one the jugfile selected with jug.set_jugdir, else --jugdir.  Update mode never
+   loads the jugfile: `store = backends.select(options.jugdir)` - it reads the --jugdir store.
+   [jf] = (results, locks) of the store the tasks use, [arg] = of the store --jugdir names; they
+   are the same unless the jugfile selects its store itself (known finding D27). *)
+Definition cached_call_dirs (d : dag) (file : option cache_db) (jf arg : store * locks)
+  : option (list event * cache_db) :=
+  match file with
+  | Some db => Some (update_status db (fst arg) (snd arg))
+  | None => match load_jugfile d with
+            | None => None
+            | Some db => Some (update_status db (fst jf) (snd jf))
+            end
+  end.
+
 (* a history of `jug status --cache` calls; between calls the store and the locks change *)
 Fixpoint cached_run (d : dag) (file : option cache_db) (h : list (store * locks))
   : list (option (list event)) :=
